@@ -8,7 +8,6 @@ use crate::gen;
 use crate::obs::{guard, guard_plain, observe, read_doc, Outcome};
 use crate::rng::Rng;
 use crate::store;
-use melda::melda::Melda;
 use std::sync::atomic::{AtomicU64, Ordering};
 use std::sync::{Arc, Mutex, RwLock};
 
